@@ -385,7 +385,12 @@ func (m *cacheModel) opRegex(step int, st scn.Step, owner int32) string {
 	}
 	ex, co := compile(text)
 	if constant && cerr != nil && st.Op != "replace" {
-		// I4: a constant pattern that does not compile is rejected by Compile
+		// I4: a constant pattern that does not compile is rejected by Compile -
+		// with an error value, not with a panic
+		if ex == nil && co.Kind != "cerr" && !co.Aborted() {
+			x.viol("regex-precheck", "regex-precheck:panic", fmt.Sprintf("Compile(%q) panicked (%s) instead of returning an error for a constant pattern Go's regexp rejects", text, clip(co.Key())), step)
+			return "panicked"
+		}
 		if ex != nil {
 			x.viol("regex-precheck", "regex-precheck", fmt.Sprintf("Compile(%q) accepted a constant pattern Go's regexp rejects (%v)", text, cerr), step)
 		}
@@ -522,6 +527,46 @@ func (m *cacheModel) opMatchNodes(step int, st scn.Step) string {
 	return got.Key()
 }
 
+// opNoise evaluates an expression that uses the builder pool and / or ends in
+// one of the package's own panics half-way. Its result is not judged: it is
+// history for the regex operations that follow.
+func (m *cacheModel) opNoise(st scn.Step) string {
+	texts := []string{
+		"concat('ab', //s > 1)", // panics after 'ab' was written when //s is not a number
+		"concat(//s, 'x', //p = 1)",
+		"normalize-space(//s)",
+		"concat('a', 'b', 'c')",
+		"concat(normalize-space(//s), 1 mod 0)",
+		"string-join(//s, concat('-', //p > 0))",
+	}
+	ex, co := compile(texts[st.N%len(texts)])
+	if ex == nil {
+		return co.Key()
+	}
+	got, it := evaluate(ex, world.NewNav(regexDoc(st.S, "zz"), 0, -1))
+	if it != nil {
+		got = drain(it, 0)
+	}
+	return got.Key()
+}
+
+// opNumPat compiles matches() / replace() with a numeric constant where the
+// pattern belongs. What Compile answers is not judged (the statement speaks of
+// patterns); the cache invariants checked after the step are: whatever got
+// stored is a pattern text mapped to its own compilation.
+func (m *cacheModel) opNumPat(st scn.Step) string {
+	texts := []string{"matches('a0', 0)", "matches(., 12)", "replace('a1', 1, 'x')"}
+	ex, co := compile(texts[st.N%len(texts)])
+	if ex == nil {
+		return co.Key()
+	}
+	got, it := evaluate(ex, world.NewNav(regexDoc("a0", "0"), 0, -1))
+	if it != nil {
+		got = drain(it, 0)
+	}
+	return got.Key()
+}
+
 // opMatchSelf: the subject is a self step with a name test, evaluated on every
 // element: //*[matches(self::NAME, P)] selects exactly the elements called NAME
 // whose string value P matches (for the others the subject is the empty
@@ -580,6 +625,12 @@ func (x *exec) histC16() {
 			r := m.opGet(i, e, st.K, st.Fail, st.Panic)
 			x.tracef("step %d get %q fail=%v panic=%v -> %s", i, st.K, st.Fail, st.Panic, r)
 			keysSeen[st.K] = true
+		case "noise":
+			r := m.opNoise(st)
+			x.tracef("step %d noise %d -> %s", i, st.N, clip(r))
+		case "numpat":
+			r := m.opNumPat(st)
+			x.tracef("step %d numeric pattern %d -> %s", i, st.N, clip(r))
 		case "matchnodes":
 			r := m.opMatchNodes(i, st)
 			x.tracef("step %d matchnodes variant %d -> %s", i, st.N, r)
